@@ -74,7 +74,7 @@ PROP_UNITS = {
     "C11": ["kani_l3", "kani_l2"],
     "C12": ["kani_l3"],
     "C13": ["kani_l3", "verus_memory"],
-    "C14": ["verus_pipe"],
+    "C14": ["verus_pipe", "kani_l3"],
     "C15": ["kani_elf"],
     "C16": ["kani_elf"],
     "C17": ["kani_stk", "verus_memory"],
@@ -134,6 +134,20 @@ def run(prop, tier, seed, t0):
                 red = bool(fs) and all(ok(lambda x, f=f: x["id"] == "verus|memory.rs::" + f) for f in fs)
             if red:
                 o["redundant_stand_in"] = True
+    # C14: the one-call Kani harnesses stand in for a handler Verus could not take; they are redundant when Verus discharged it
+    pipe_fn = lambda o: "pipe_read" if "_read_" in o.get("harness", "") else "pipe_write"
+    vp = {o["id"].split("#")[-1]: o for o in obs if o["unit"] == "verus_pipe" and "#" in o["id"]}
+    for o in obs:
+        if o["unit"] == "kani_l3" and (o.get("harness") or "").startswith("l3_sys_pipecall_"):
+            v = vp.get(pipe_fn(o))
+            if v is not None and v["status"] == "discharged" and o["status"] == "bounded-discharged":
+                o["redundant_stand_in"] = True
+    for f, v in vp.items():
+        if v["status"] == "undecided" and f in ("pipe_read", "pipe_write"):
+            st = [o for o in obs if o["unit"] == "kani_l3" and (o.get("harness") or "").startswith("l3_sys_pipecall_") and pipe_fn(o) == f]
+            if st and all(o["status"] in ("bounded-discharged", "failed") for o in st):
+                v["expected_undecided"] = True
+                v["detail"] += " | decided by the bounded one-call stand-ins: " + ", ".join(sorted({o["harness"] for o in st}))
     info = merge_info(infos)
     extra = dict(unit_details=info.pop("unit_details", {}))
     budget = dict(n=0)
@@ -167,7 +181,7 @@ def replay(prop, path):
     return 1
 
 
-HOOK_COMMITS = ["b0eef22", "5de7463"]
+HOOK_COMMITS = ["b0eef22", "5de7463", "64904d3"]
 
 MEM_NOTE = ("Assumes the std contracts listed in evidence.trusted_base (iterator find, copy_from_slice, to_vec, Vec length bound), "
             "Verus/Z3 soundness, usize == 64 bit; error texts and debug_log! bodies are not verified; allocation failure is outside the model.")
@@ -217,7 +231,7 @@ CLAIMS = {
               "After decode (iced, trusted), every decoder-producible instruction of every Code of the supported mnemonics runs without panic/overflow/bounds failure in the real text, unsupported/unimplemented forms return Err and change nothing, the step skeleton, hooks, trace recorder and memory accessors are panic-free. Termination: no loops above the memory layer except execute().", L2_NOTE),
 }
 
-CLAIMS["C14"] = _c("verus", "proof", "10.10", "Verus: real bodies of the pipe(), read() and write() handler closures under contract (unbounded sizes) + inductive FIFO lemma over all call histories",
+CLAIMS["C14"] = _c("verus+kani", "proof", "10.10", "Verus: real bodies of the pipe(), read() and write() handler closures under contract (unbounded sizes) + inductive FIFO lemma over all call histories",
                    "Each handler closure of register_pipe (real text, cut out on every run) satisfies: calls that are not its syscall or not on a pipe end return Unhandled and change nothing; read returns min(count, buffered) bytes - the head of the buffer, in order - stores exactly them, sets RAX, and removes exactly them; write appends exactly the count guest bytes to the buffer of its pipe and to no other; pipe() creates an empty pipe on two unused descriptors and touches no existing pipe; the three maps stay a bijection of write and read ends with one buffer per read end. A lemma over these contracts shows for every finite history of calls on any descriptors: bytes written == bytes read ++ bytes buffered, per pipe. The hook chain's Handled/Unhandled protocol is C12.",
                    "contracts of the register / memory accessors and of the std Entry chain are trusted here (proved / listed in the other units); registration glue not covered")
 CLAIMS["C15"] = _c("kani", "other", "10.11", "Kani: real body of the segment loop of from_binary (one iteration, arbitrary program header) + elf_flags_to_prot against the contracts of segment_data and the memory layer",
